@@ -33,6 +33,8 @@ pub struct Seg {
     pub data: Vec<u8>,
     /// read offset inside data
     pub off: usize,
+    /// world-wide sequence number of the write
+    pub order: u64,
 }
 
 /// one direction of a connection
@@ -77,10 +79,12 @@ pub fn chan_push(chan: &ChanRef, at_ms: u64, data: Vec<u8>) {
             Some(last) => last.at_ms.max(at_ms),
             None => at_ms,
         };
+        let order = kernel::current().map(|c| c.next_order()).unwrap_or(0);
         c.q.push_back(Seg {
             at_ms: at,
             data,
             off: 0,
+            order,
         });
         c.waker.take()
     };
@@ -110,6 +114,16 @@ pub fn chan_wake(chan: &ChanRef) {
     if let Some(w) = waker {
         w.wake();
     }
+}
+
+/// like chan_drain, with the world-wide sequence number of each write
+pub fn chan_drain_ordered(chan: &ChanRef) -> Vec<(u64, u64, Vec<u8>)> {
+    let mut c = chan.lock().unwrap();
+    let mut out = Vec::new();
+    while let Some(seg) = c.q.pop_front() {
+        out.push((seg.at_ms, seg.order, seg.data));
+    }
+    out
 }
 
 /// take everything written so far (driver side of an outbox)
